@@ -141,7 +141,7 @@ func init() {
 
 	register("C09",
 		"The composition clauses of 'point-in-ring/polygon matches even-odd geometry', decided with the callees uninterpreted: RingContains consults every edge of the implicitly closed ring exactly once (consecutive pairs and the closing pair), a boundary hit on any edge wins, otherwise the answer is the parity of the crossings; a polygon contains a point iff its outer ring does and no hole does; a multi-polygon iff any member does. What rayIntersect answers for one segment (the degenerate alignments, the one-ulp nudge, the slope comparison) is NOT decided.",
-		ruleCompose(planarContainsSpecs, 13),
+		ruleCompose(concatSpecs(planarContainsSpecs, rayIntersectSpecs), 150),
 	)
 
 	register("C10",
